@@ -138,6 +138,8 @@ def r4(tree, rep, tier):
 
 
 def run(tree, rep, tier):
+    from .. import sharedstate
+    sharedstate.check(tree, rep, "C14.R0")
     r2(tree, rep)
     r3(tree, rep)
     r4(tree, rep, tier)
